@@ -15,7 +15,36 @@ type knownFinding struct {
 	Property   string `json:"property"`
 	Obligation string `json:"obligation"` // exact name or regexp (anchored)
 	What       string `json:"what"`
-	Witness    string `json:"witness,omitempty"`
+	Witness    string `json:"witness,omitempty"`     // Go test file (func TestReplayVerif) that fails while the defect is present
+	WitnessPkg string `json:"witness_pkg,omitempty"` // import path of the package the test is injected into
+	checked    bool
+	stillFails bool
+	output     string
+}
+
+// witnessStillFails replays the stored witness against the current tree.
+func (f *knownFinding) witnessStillFails(repo string, P *Program) bool {
+	if f.checked {
+		return f.stillFails
+	}
+	f.checked = true
+	if f.Witness == "" {
+		f.stillFails = true // no stored input: matched by obligation name only
+		return true
+	}
+	src, err := os.ReadFile(f.Witness)
+	if err != nil {
+		f.output = err.Error()
+		return false
+	}
+	dir := P.PkgDirs[f.WitnessPkg]
+	if dir == "" {
+		dir = repo
+	}
+	out, failed := runWitnessTest(repo, f.WitnessPkg, filepath.Join(dir, "zz_replay_verif_test.go"), string(src))
+	f.output = out
+	f.stillFails = failed
+	return failed
 }
 
 type fixedEntry struct {
